@@ -46,6 +46,9 @@ type Runner struct {
 	// in a run whose property does not arm the status rule: the case ends.
 	Diverged string
 	JobErrs  []string
+	// KnownHits: violations that match a listed known finding (recorded, the
+	// history goes on)
+	KnownHits map[string]Viol
 	// NoModel: run without oracles (twin runs only need the trace)
 	step int
 }
@@ -84,6 +87,15 @@ func (r *Runner) report(vs []Viol) {
 		}
 		if r.Viol == nil && ok {
 			v := vs[i]
+			if id := MatchKnown(v.Rule, v.Sig); id != "" {
+				if r.KnownHits == nil {
+					r.KnownHits = map[string]Viol{}
+				}
+				if _, dup := r.KnownHits[id]; !dup {
+					r.KnownHits[id] = v
+				}
+				continue
+			}
 			r.Viol = &v
 		}
 	}
